@@ -135,7 +135,7 @@ func TestC09FailoverCollision(t *testing.T) {
 		keys := [][]byte{base, k2, other}
 
 		propFailoverSched(c, scenOpts{
-			keys: keys, maxKeys: 3, minGets: 2, maxGets: 6, postActions: true, failPct: 30, errKinds: true, prefail: true,
+			keys: keys, maxKeys: 3, minGets: 2, maxGets: 6, postActions: true, failPct: 40, errKinds: true, prefail: true, clock: 1, external: 2, extCleanup: true,
 		}, func(w *world, sc *scenario, complete bool) {
 			w.checkProvenance()
 			w.checkQuiescenceLossy(sc, complete)
